@@ -3,7 +3,7 @@ From FP Require Import Model.Protocol.
 Import ListNotations.
 Ltac unf := unfold push_sq, push_iq, do_flush, set_stop, set_open, set_input, set_lstop, set_r, set_dq,
   set_mrecv, set_a, set_alive, set_vs, set_w, set_wbuf, set_wout, set_iq, set_sq, set_m, set_c,
-  set_errs, set_fatal, set_panic in *.
+  set_errs, set_fatal, set_panic, set_sigs, set_hardexit in *.
 Lemma sum_w_app {A} (w : A -> nat) l1 l2 : sum_w w (l1 ++ l2) = sum_w w l1 + sum_w w l2.
 Proof. induction l1 as [|x l1 IH]; simpl; [reflexivity|]. rewrite IH. lia. Qed.
 
@@ -25,7 +25,8 @@ Proof. intros H E. pose proof (sum_w_upd g vs i v H). lia. Qed.
 Definition mu0 (s : state) : nat :=
   pcw_r (s_r s) + sum_w wb (s_dq s) + pcw_a (s_a s) + sum_w wv (s_vs s)
   + pcw_w (s_w s) + 2 * length (s_iq s) + length (s_sq s) + pcw_m (s_m s) + pcw_c (s_c s)
-  + (if s_stop s then 0 else 1) + (if s_open s then 1 else 0) + (if s_panic s then 0 else 1).
+  + (if s_stop s then 0 else 1) + (if s_open s then 1 else 0) + (if s_panic s then 0 else 1)
+  + (1 - s_sigs s) + (if s_hardexit s then 0 else 1).
 Lemma mu_split f s : mu f s = w_input f s + mu0 s.
 Proof. unfold mu, mu0. lia. Qed.
 
@@ -143,11 +144,13 @@ Qed.
 
 Theorem mu_decreases f l s s' : step f l s = Some s' -> mu f s' < mu f s.
 Proof.
-  unfold step. destruct (s_panic s) eqn:Hp; [discriminate|].
+  unfold step. destruct (s_panic s) eqn:Hp; [discriminate|]. destruct (s_hardexit s) eqn:Hh; [discriminate|].
   destruct l.
-  - destruct (s_stop s) eqn:Hs; [discriminate|]. intros H; got H.
-    rewrite !mu_split. match goal with |- w_input f ?a + _ < _ => assert (w_input f a <= w_input f s) by (apply w_input_stop; reflexivity) end.
-    unfold mu0; crunch.
+  - destruct (1 <=? s_sigs s) eqn:Hs; [discriminate|]. apply Nat.leb_gt in Hs.
+    destruct (s_stop s && negb (pf_handler_own_counter f)); intros H; got H.
+    + same_input; unfold mu0; crunch.
+    + rewrite !mu_split. match goal with |- w_input f ?a + _ < _ => assert (w_input f a <= w_input f s) by (apply w_input_stop; reflexivity) end.
+      unfold mu0; crunch.
   - destruct (s_open s) eqn:Ho; [|discriminate]. intros H; got H. same_input; unfold mu0; crunch.
   - apply mu_reader.
   - apply mu_main.
